@@ -125,7 +125,10 @@ def handle (line : String) : String :=
         let unsupported := match cls with
           | c0 :: _ => c0.startsWith "promote" || c0.startsWith "demote"
           | [] => false
-        let m : Msg := { kind := k, id := 0, unsupported := unsupported }
+        let ptr := match cls with
+          | c0 :: _ => c0.startsWith "pointer/promote" || c0.startsWith "pointer/demote"
+          | [] => false
+        let m : Msg := { kind := k, id := 0, unsupported := unsupported, pointsAtUnsupported := ptr }
         -- last token = what the inner handler did (`o` / `e` / `p`); the routing adds no panic of its own
         match cls.getLast? with
         | some "p" => (match (process (fun _ _ => (Inner.panic : Inner Unit Unit)) (emptySt ()) m).2 with
